@@ -201,6 +201,15 @@ func runInWorkers(jobs []wJob, nworkers int, mode string, limit, confirm time.Du
 				if !ok {
 					return
 				}
+				mu.Lock()
+				cut := confirmations > 54
+				mu.Unlock()
+				if cut {
+					// a tree on which dozens of inputs kill or stall the worker is decided already (the
+					// confirmed cases are reported); the rest of the run is not worth 20 s per input
+					handle(j, wResult{ID: j.ID, Died: "not run: the run was cut short after more than 54 worker deaths/timeouts", Unconfirmed: true})
+					continue
+				}
 				r, ok2, why := one(w, j, limit)
 				if ok2 {
 					handle(j, r)
